@@ -41,6 +41,9 @@ def add_repo_to_path():
 
 def scratch_dir(prefix="vf-"):
     base = "/dev/shm" if os.path.isdir("/dev/shm") and os.access("/dev/shm", os.W_OK) else None
+    own = os.environ.get("VF_SCRATCH_BASE")
+    if own and os.path.isdir(own):
+        base = own          # inside a shard: the orchestrator removes this directory whatever becomes of the shard
     return tempfile.mkdtemp(prefix=prefix, dir=base)
 
 
@@ -186,12 +189,17 @@ def run_shards(prop, specs, shard_timeout, max_parallel=None, env_extra=None):
                 with open(sp, "w") as f:
                     json.dump(spec, f)
                 lf = open(lp, "wb")
+                # scratch space of the shard and of everything it starts (temporary files of the code under test and the socket
+                # directories of multiprocessing managers included): removed here, also when the shard has to be killed
+                td = os.path.join(work, f"tmp{i}")
+                os.makedirs(td, exist_ok=True)
+                env_i = dict(env, VF_SCRATCH_BASE=td, TMPDIR=td)
                 # every fourth shard runs under `python -O` (assert statements are compiled away): what the library does must
                 # not depend on work done inside an assert
                 pyflags = ["-O"] if i % 4 == 3 else []
                 p = subprocess.Popen([PY] + pyflags + [os.path.join(VERIF_ROOT, "check.py"), prop, "--shard", sp, op],
                                      stdout=lf, stderr=subprocess.STDOUT, stdin=subprocess.DEVNULL,
-                                     start_new_session=True, env=env, cwd=VERIF_ROOT)
+                                     start_new_session=True, env=env_i, cwd=VERIF_ROOT)
                 lf.close()
                 running[i] = (p, time.monotonic(), spec, op, lp)
             time.sleep(0.05)
@@ -231,6 +239,7 @@ def run_shards(prop, specs, shard_timeout, max_parallel=None, env_extra=None):
                     note = f"shard exited rc={rc} without result; log tail: {tail}"
                 done[i] = (spec, res, note)
                 del running[i]
+                shutil.rmtree(os.path.join(work, f"tmp{i}"), ignore_errors=True)
     finally:
         for i in list(running):
             _kill_group(running[i][0])
